@@ -94,9 +94,11 @@ func (m *C14Monitor) AfterTx(c *Chain, ctx sdk.Context, tx sdk.Tx, ok bool) {
 			minted := math.ZeroInt()
 			for i, id := range x.DepositIds {
 				qid := QueryID(BridgeQuery(true, id))
-				agg, ts, err := a.OracleKeeper.GetAggregateByIndex(ctx, qid, x.Indices[i])
+				// the aggregate the claim names, looked up independently of the keeper: the Indices[i]-th aggregate stored
+				// under the deposit's OWN query id
+				agg, ts, err := ownAggregateByIndex(c, ctx, qid, x.Indices[i])
 				if err != nil || agg == nil {
-					c.Violate("C14", "c14", "claim-accepted-without-aggregate", map[string]interface{}{"id": id})
+					c.Violate("C14", "c14", "claim-accepted-without-aggregate-of-its-own-query", map[string]interface{}{"id": id, "index": x.Indices[i]})
 					continue
 				}
 				age := ctx.BlockTime().Sub(ts)
@@ -194,6 +196,33 @@ func (m *C14Monitor) AfterTx(c *Chain, ctx sdk.Context, tx sdk.Tx, ok bool) {
 
 // outcomes records, per deposit id, what happened to reports and claims (evidence only: shows which hostile
 // encodings were refused at the report, refused at the claim, or claimed)
+// ownAggregateByIndex walks the aggregates stored under exactly this query id (prefix range) and returns the n-th.
+func ownAggregateByIndex(c *Chain, ctx sdk.Context, qid []byte, n uint64) (*oracletypes.Aggregate, time.Time, error) {
+	var out *oracletypes.Aggregate
+	var ts time.Time
+	i := uint64(0)
+	err := c.App.OracleKeeper.Aggregates.Walk(ctx, collections.NewPrefixedPairRange[[]byte, uint64](qid), func(k collections.Pair[[]byte, uint64], a oracletypes.Aggregate) (bool, error) {
+		if string(k.K1()) != string(qid) || string(a.QueryId) != string(qid) {
+			return false, nil
+		}
+		if i == n {
+			cp := a
+			out = &cp
+			ts = time.UnixMilli(int64(k.K2()))
+			return true, nil
+		}
+		i++
+		return false, nil
+	})
+	if err != nil {
+		return nil, ts, err
+	}
+	if out == nil {
+		return nil, ts, fmt.Errorf("no aggregate %d under this query id", n)
+	}
+	return out, ts, nil
+}
+
 func (m *C14Monitor) outcomes(c *Chain, br *BlockResult) {
 	for i, tr := range br.Res.TxResults {
 		if i == 0 && br.Height > 1 {
